@@ -287,7 +287,10 @@ void add_space(mc::Runner &R, const std::string &name, const std::vector<int> &e
 
 const uint32_t kU32Patterns[] = {0u, 1u, 0x7fffffffu, 0x80000000u, 0xffffffffu, 0x00010000u, 0x01000000u, 0x000000ffu};
 // 0xfffffffe / 0xfffffffd are the symbols of the signed varints INT32_MAX / INT32_MIN + 1
-const uint64_t kVarintPatterns[] = {0ull, 127ull, 128ull, 1ull << 21, 0x7fffffffull, 0xffffffffull, 1ull << 35, UINT64_MAX, 0xfffffffeull, 0xfffffffdull};
+// 0x55555556 ... 0x10000001: the smallest counts whose product with 3, 3 (second window), 4, 8, 12, 16 wraps a 32-bit multiplication
+// ("count * element_size > remaining" guards)
+const uint64_t kVarintPatterns[] = {0ull, 127ull, 128ull, 1ull << 21, 0x7fffffffull, 0xffffffffull, 1ull << 35, UINT64_MAX, 0xfffffffeull, 0xfffffffdull,
+                                    0x55555556ull, 0xaaaaaaabull, 0x40000001ull, 0x20000001ull, 0x15555556ull, 0x10000001ull};
 const uint64_t kNumVarintPatterns = sizeof(kVarintPatterns) / sizeof(kVarintPatterns[0]);
 
 Bytes varint_bytes(uint64_t v) {
